@@ -97,7 +97,8 @@ def cases(draw, kind):
         small = st.one_of(st.integers(0, 3), st.sampled_from(['x', 'y']), st.none())
         D = st.recursive(small, lambda ch: st.one_of(st.dictionaries(wide_keys, ch, min_size=2, max_size=4),
                                                      st.lists(ch, max_size=3)), max_leaves=8)
-        a, b = draw(D), draw(D)
+        a = draw(D)
+        b = draw(st.one_of(D, gen.mutate(a, D, small), gen.mutate(a, D, small)))
         inp = 'json'
     else:
         a, b = draw(gen.doc_pairs(10, 5))
@@ -109,12 +110,12 @@ def jobs(tier):
     js = []
     if tier == 'quick':
         for s in range(16):
-            js.append({'kind': 'purity', 'n': 25, 'shard': s})
+            js.append({'kind': 'purity', 'n': 120, 'shard': s})
             js.append({'kind': 'repeat', 'n': 25, 'shard': s})
             js.append({'kind': 'seeds', 'n': 25, 'shard': s, 'tier': tier})
     else:
         for s in range(16):
-            js.append({'kind': 'purity', 'n': 400, 'shard': s})
+            js.append({'kind': 'purity', 'n': 1500, 'shard': s})
             js.append({'kind': 'repeat', 'n': 300, 'shard': s})
             js.append({'kind': 'seeds', 'n': 320, 'shard': s, 'tier': tier})
     return js
